@@ -264,9 +264,15 @@ def r9_msgpack(ctx):
         always = keys if always is None else always & keys
         sometimes |= keys
     req, opt = set(), set()
-    loc = [U(n.targets[0]) for n in walk_own(dec.node)
-           if isinstance(n, ast.Assign) and isinstance(n.value, ast.Call)
-           and U(n.value.func).endswith('loads')]
+    # the local holding the unpacked message: assigned from a call and
+    # read with constant string keys
+    cand = [U(n.targets[0]) for n in walk_own(dec.node)
+            if isinstance(n, ast.Assign) and isinstance(n.value, ast.Call)
+            and isinstance(n.targets[0], ast.Name)]
+    loc = [c for c in cand if any(
+        isinstance(n, ast.Subscript) and U(n.value) == c and
+        isinstance(n.slice, ast.Constant) and isinstance(n.slice.value, str)
+        for n in walk_own(dec.node))]
     if not loc:
         raise AnalysisError('MsgPackPacket.decode: the unpacked dict is not '
                             'bound to a local')
